@@ -9,8 +9,8 @@ CONSTANTS
   MaxLive = 2
   MaxBatches = 0
   MaxBatchOps = 0
-  Stops = {0, 1, 2}
-  Muts = {FALSE, TRUE}
+  Stops = {0, 1}
+  Muts = {TRUE}
   Ops = {"Get", "Has", "Set", "Delete", "DeletePrefix", "Clear", "Flush", "Close", "Realm", "Batched", "Iterate", "IterateKeys", "WithRealm", "WithExtendedRealm", "BSet", "BDelete", "Cancel", "Commit"}
 VIEW View
 INVARIANTS TypeOK ClosedOK NotClosedOK GetOK HasOK SetOK IterOK StOK
